@@ -14,7 +14,7 @@
    every commit against `encap_recipients` evaluated in Coq; removed and never-added parties fed
    all later traffic).  Statements only. *)
 From Coq Require Import NArith List.
-From MlsV Require Import Res TreeMathGen Tree TreeProofs TreeWF Kem KemProofs Admission AdmissionProofs KemGen KemGenProofs AdmissionGen AdmissionGenProofs.
+From MlsV Require Import Res TreeMathGen Tree TreeProofs TreeWF Kem KemProofs Admission AdmissionProofs KemGen KemGenProofs AdmissionGen AdmissionGenProofs Priv PrivProofs CommitStep.
 Import ListNotations.
 Local Open Scope N_scope.
 
@@ -62,6 +62,19 @@ Example C02_ex :
   wf3_check t = true /\ encap_recipients t 0 [] = Ok [(3, [5])].
 Proof. vm_compute. split; reflexivity. Qed.
 
+(* over the commit as a whole (proposals, then the path): a member removed by the commit holds private keys
+   only for its own leaf and for nodes of its direct path (PrivOK); none of those nodes is among the nodes
+   the new path secrets are sealed to - its path was blanked and is never re-created by the same commit,
+   its leaf is blank or, if the slot was given to somebody else by the same commit, excluded *)
+Theorem C02_removed_member_holds_no_key_of_a_recipient_node : forall t removes updates adds t1 added l sndr id rs,
+  shape_ok t -> tlen t + 2 * N.of_nat (length adds) < 2 ^ 25 ->
+  batch_edit t removes updates adds = TOk (t1, added) -> In l removes ->
+  let t1' := set t1 (2 * sndr) (Some (Leaf id)) in
+  wf3 t1' -> encap_recipients t1' sndr added = Ok rs ->
+  forall p xs x, In (p, xs) rs -> In x xs ->
+    (forall k, (1 <= k)%nat -> x <> lvl_node (N.of_nat k) l) /\ (get t1' (2 * l) = None \/ In l added -> x <> 2 * l).
+Proof. exact removed_member_holds_no_key_of_a_recipient_node. Qed.
+
 Print Assumptions C02_unmerged_invariant_initially.
 Print Assumptions C02_unmerged_invariant_preserved.
 Print Assumptions C02_resolution_has_no_blank_node.
@@ -85,3 +98,4 @@ Theorem C02_translated_check_metadata_is_the_model : forall v gid epoch ct ciphe
   gen_check_metadata v gid epoch ct cipher = check_metadata v gid epoch ct cipher.
 Proof. exact gen_check_metadata_is_model. Qed.
 Print Assumptions C02_translated_check_metadata_is_the_model.
+Print Assumptions C02_removed_member_holds_no_key_of_a_recipient_node.
